@@ -21,6 +21,23 @@
 //     exported later.
 //   - "Shutdown has returned" = every Shutdown call of the phase in which the
 //     first one was issued has returned without error.
+//   - "the configured maximum batch size" / "the bounded queue" are what the
+//     documentation of the With… options and of the OTEL_BLRP_* environment
+//     variables makes of the configuration, through whichever channel it was
+//     given (config_test.go holds the model); where the documentation has two
+//     readings, the largest batch size and the smallest queue size are used.
+//   - A change made to the record by a processor registered AFTER the batch
+//     processor is a "later change to the caller's record" (the batch
+//     processor's caller is the logger, which hands the same record on).
+//   - A neighbour processor whose OnEmit fails does not un-emit a record.
+//
+// Sub-checks: blp_history (concurrent programs), blp_config (mostly
+// sequential programs over every configuration channel and spelling, record
+// counts placed around the configured sizes); both use the same oracle.
+//
+// Labels only, never asserted: the deadline of the Export context compared
+// with the configured export timeout; which channel / spelling class each
+// setting used.
 package c06
 
 import (
@@ -51,6 +68,17 @@ type Op struct {
 	T int    `json:"t,omitempty"` // flush/shutdown: ctx timeout in microseconds, 0 none, -1 cancelled, -2/-3/-6 cancelled 0.3/0.6/1.5 ms after the call was issued
 	M bool   `json:"m,omitempty"` // emit: mutate the caller's record right after Emit returned
 	C int    `json:"c,omitempty"` // emit: context handed to Emit: 0 live, 1 already cancelled, 2 deadline already expired (a record is emitted all the same)
+	N int    `json:"n,omitempty"` // emit: burst of N records back to back (0 and 1: a single record)
+}
+
+func (o Op) count() int {
+	if o.K != "emit" {
+		return 0
+	}
+	if o.N > 1 {
+		return o.N
+	}
+	return 1
 }
 
 // Case is one generated program.
@@ -64,16 +92,66 @@ type Case struct {
 	Phases          [][][]Op `json:"phases"`
 	Exporter        []int    `json:"exporter"` // n-th Export call: 0 ok, 1 error, 2 sleep 50us, 3 sleep 1ms, 4 sleep 3ms, 5 block until ctx done (cap 4ms)
 	Runs            int      `json:"runs"`
+	// Cfg, when present, says through which channel (option, environment,
+	// both, neither) and in which spelling every setting is configured; the
+	// five fields above are then informative only. Absent: one option each.
+	Cfg *Config `json:"cfg,omitempty"`
+	// AttrN: 0 = seven attributes per record; otherwise AttrN-1 attributes
+	// (0..12; the first five live inline in the SDK record, the rest in its
+	// overflow slice).
+	AttrN int `json:"attr_n,omitempty"`
+	// Neighbour (through a LoggerProvider only): another processor registered
+	// with the same provider: 0 none, 1 one whose OnEmit fails, registered
+	// before the batch processor, 2 the same registered after it, 3 one that
+	// rewrites the record it is handed, registered after it, 4 a second batch
+	// processor with a tiny queue and an exporter that always fails, before it.
+	Neighbour int `json:"neighbour,omitempty"`
+}
+
+func (c Case) nattrs() int {
+	if c.AttrN == 0 {
+		return 7
+	}
+	return c.AttrN - 1
+}
+
+func (c Case) config() Config {
+	if c.Cfg != nil {
+		return *c.Cfg
+	}
+	return Config{
+		Queue: optOnly(int64(c.Queue)), Batch: optOnly(int64(c.Batch)),
+		Interval: optOnly(c.IntervalUs), Timeout: optOnly(c.ExportTimeoutUs),
+		Buffer: optOnly(int64(c.Buffer)),
+	}
 }
 
 func gen(t *rapid.T) Case {
 	c := Case{}
-	c.Queue = rapid.OneOf(rapid.IntRange(1, 4), rapid.IntRange(1, 32)).Draw(t, "queue")
+	c.Queue = rapid.OneOf(rapid.IntRange(1, 4), rapid.IntRange(1, 32), rapid.IntRange(1, 32), rapid.IntRange(33, 160)).Draw(t, "queue")
 	c.Batch = rapid.IntRange(1, c.Queue).Draw(t, "batch")
-	c.IntervalUs = rapid.SampledFrom([]int64{1000, 3600e6, 3600e6}).Draw(t, "interval")
+	if rapid.IntRange(0, 7).Draw(t, "batch_above_queue") == 0 {
+		c.Batch = c.Queue + rapid.IntRange(1, 8).Draw(t, "batch_excess")
+	}
+	c.IntervalUs = rapid.SampledFrom([]int64{200, 1000, 1000, 5000, 3600e6, 3600e6, 3600e6, 3600e6}).Draw(t, "interval")
 	c.ExportTimeoutUs = rapid.SampledFrom([]int64{2000, 1e6, 1e6}).Draw(t, "export_timeout")
 	c.Buffer = rapid.IntRange(1, 3).Draw(t, "buffer")
 	c.ViaProvider = rapid.IntRange(0, 2).Draw(t, "via_provider") == 0
+	if c.ViaProvider {
+		c.Neighbour = rapid.SampledFrom([]int{0, 0, 1, 2, 3, 4}).Draw(t, "neighbour")
+	}
+	c.AttrN = rapid.SampledFrom([]int{0, 0, 0, 1, 2, 5, 6, 7, 9, 13}).Draw(t, "attr_n")
+	if rapid.Bool().Draw(t, "spelled_config") {
+		// the same values, each through a generated channel and spelling
+		// that has exactly one reading
+		c.Cfg = &Config{
+			Queue:    genExact(t, int64(c.Queue), true, false),
+			Batch:    genExact(t, int64(c.Batch), true, false),
+			Interval: genExact(t, c.IntervalUs, true, true),
+			Timeout:  genExact(t, c.ExportTimeoutUs, true, true),
+			Buffer:   genExact(t, int64(c.Buffer), false, false),
+		}
+	}
 	nphases := rapid.IntRange(1, 5).Draw(t, "phases")
 	shutdownSeen := false
 	for p := 0; p < nphases; p++ {
@@ -110,6 +188,9 @@ func gen(t *rapid.T) Case {
 						op.K = "emit"
 						op.M = rapid.Bool().Draw(t, "m")
 						op.C = genEmitCtx(t)
+						if rapid.IntRange(0, 9).Draw(t, "burst") == 0 {
+							op.N = rapid.OneOf(rapid.IntRange(2, 8), rapid.IntRange(2, 2*c.Queue+2)).Draw(t, "burst_n")
+						}
 					case k < 18:
 						op.K = "flush"
 						op.T = rapid.SampledFrom([]int{0, 0, 0, 50, 5000, -1, -2, -3, -6}).Draw(t, "ctx")
@@ -165,6 +246,8 @@ type recExporter struct {
 	inflight  atomic.Int32
 	overlap   atomic.Int32
 	shutdowns atomic.Int32
+	// longest time to its deadline an Export context had on entry (ns)
+	maxRemaining atomic.Int64
 }
 
 var errScripted = errors.New("scripted exporter failure")
@@ -192,6 +275,13 @@ func (e *recExporter) Export(ctx context.Context, records []sdklog.Record) error
 	}
 	defer e.inflight.Add(-1)
 	call := &exportCall{enter: e.clock.Tick()}
+	if dl, ok := ctx.Deadline(); ok {
+		if d := int64(time.Until(dl)); d > e.maxRemaining.Load() {
+			e.maxRemaining.Store(d)
+		}
+	} else {
+		e.maxRemaining.Store(int64(huge))
+	}
 	for i := range records {
 		id, content := render(&records[i]) // copy inside the call
 		call.items = append(call.items, recItem{id, content})
@@ -268,20 +358,20 @@ func mkCtx(t int) (context.Context, context.CancelFunc) {
 	}
 }
 
-// expected content of record id: body + 7 attributes (5 inline + 2 in the
-// overflow slice) all derived from the id.
-func attrsFor(id int) []log.KeyValue {
-	kvs := make([]log.KeyValue, 7)
+// expected content of record id: body + n attributes (the first 5 inline, the
+// rest in the overflow slice) all derived from the id.
+func attrsFor(id, n int) []log.KeyValue {
+	kvs := make([]log.KeyValue, n)
 	for i := range kvs {
 		kvs[i] = log.String("k"+strconv.Itoa(i), "v"+strconv.Itoa(id)+"."+strconv.Itoa(i))
 	}
 	return kvs
 }
 
-func expectedContent(id int) string {
+func expectedContent(id, n int) string {
 	var sb strings.Builder
 	sb.WriteString("rec:" + strconv.Itoa(id))
-	for _, kv := range attrsFor(id) {
+	for _, kv := range attrsFor(id, n) {
 		sb.WriteString("|" + kv.Key + "=" + kv.Value.String())
 	}
 	return sb.String()
@@ -304,9 +394,9 @@ func runOnce(c Case) ([]vk.Violation, map[string]bool) {
 	for pi, ph := range c.Phases {
 		for g, ops := range ph {
 			for i, op := range ops {
-				if op.K == "emit" {
-					ids[slot{pi, g, i}] = nrec
-					nrec++
+				if n := op.count(); n > 0 {
+					ids[slot{pi, g, i}] = nrec // first id of the burst
+					nrec += n
 				}
 			}
 		}
@@ -315,21 +405,52 @@ func runOnce(c Case) ([]vk.Violation, map[string]bool) {
 	total := nrec + extra
 
 	exp := &recExporter{clock: clock, script: c.Exporter}
-	bp := sdklog.NewBatchProcessor(exp,
-		sdklog.WithMaxQueueSize(c.Queue), sdklog.WithExportMaxBatchSize(c.Batch),
-		sdklog.WithExportInterval(time.Duration(c.IntervalUs)*time.Microsecond),
-		sdklog.WithExportTimeout(time.Duration(c.ExportTimeoutUs)*time.Microsecond),
-		sdklog.WithExportBufferSize(c.Buffer))
+	cfg := c.config()
+	eff := cfg.effective()
+	for _, k := range eff.classes {
+		classes[k] = true
+	}
+	// the environment is read by the constructor only
+	restoreEnv := cfg.applyEnv()
+	bp := func() *sdklog.BatchProcessor {
+		defer restoreEnv()
+		return sdklog.NewBatchProcessor(exp, cfg.options()...)
+	}()
 
+	na := c.nattrs()
+	// the keys a later change overwrites: the first (inline) and the last one
+	// (in the overflow slice when there are more than five), plus a new key
+	mutation := func() []log.KeyValue {
+		m := []log.KeyValue{log.String("added", "MUTATED")}
+		if na > 0 {
+			m = append(m, log.String("k"+strconv.Itoa(na-1), "MUTATED"), log.String("k0", "MUTATED"))
+		}
+		return m
+	}
 	var emit func(id int, mutate bool, ctxKind int)
 	var flush, shutdown func(context.Context) error
+	var neighbour *sdklog.BatchProcessor
 	if c.ViaProvider {
-		lp := sdklog.NewLoggerProvider(sdklog.WithProcessor(bp), sdklog.WithAttributeCountLimit(-1), sdklog.WithAttributeValueLengthLimit(-1))
+		opts := []sdklog.LoggerProviderOption{sdklog.WithAttributeCountLimit(-1), sdklog.WithAttributeValueLengthLimit(-1)}
+		switch c.Neighbour {
+		case 1:
+			opts = append(opts, sdklog.WithProcessor(failingProcessor{}), sdklog.WithProcessor(bp))
+		case 2:
+			opts = append(opts, sdklog.WithProcessor(bp), sdklog.WithProcessor(failingProcessor{}))
+		case 3:
+			opts = append(opts, sdklog.WithProcessor(bp), sdklog.WithProcessor(rewritingProcessor{mutation}))
+		case 4:
+			neighbour = sdklog.NewBatchProcessor(failingExporter{}, sdklog.WithMaxQueueSize(4), sdklog.WithExportMaxBatchSize(2), sdklog.WithExportInterval(time.Millisecond))
+			opts = append(opts, sdklog.WithProcessor(neighbour), sdklog.WithProcessor(bp))
+		default:
+			opts = append(opts, sdklog.WithProcessor(bp))
+		}
+		lp := sdklog.NewLoggerProvider(opts...)
 		lg := lp.Logger("c06")
 		emit = func(id int, mutate bool, ctxKind int) {
 			var r log.Record
 			r.SetBody(log.StringValue("rec:" + strconv.Itoa(id)))
-			kvs := attrsFor(id)
+			kvs := attrsFor(id, na)
 			r.AddAttributes(kvs...)
 			lg.Emit(emitCtx(ctxKind), r)
 			if mutate {
@@ -337,25 +458,35 @@ func runOnce(c Case) ([]vk.Violation, map[string]bool) {
 					kvs[i] = log.String("mutated", "x")
 				}
 				r.SetBody(log.StringValue("MUTATED"))
-				r.AddAttributes(log.String("k6", "MUTATED"), log.String("k0", "MUTATED"))
+				r.AddAttributes(mutation()...)
 			}
 		}
 		flush, shutdown = lp.ForceFlush, lp.Shutdown
 	} else {
 		emit = func(id int, mutate bool, ctxKind int) {
+			kvs := attrsFor(id, na)
 			r := logtest.RecordFactory{
-				Body: log.StringValue("rec:" + strconv.Itoa(id)), Attributes: attrsFor(id),
+				Body: log.StringValue("rec:" + strconv.Itoa(id)), Attributes: kvs,
 				AttributeCountLimit: -1, AttributeValueLengthLimit: -1,
 			}.NewRecord()
 			_ = bp.OnEmit(emitCtx(ctxKind), &r)
 			if mutate {
-				// overwrite in place: k6 lives in the overflow slice, k0 inline
-				r.AddAttributes(log.String("k6", "MUTATED"), log.String("k0", "MUTATED"))
+				for i := range kvs {
+					kvs[i] = log.String("mutated", "x")
+				}
+				if id%2 == 1 {
+					// replace the whole attribute set
+					r.SetAttributes(mutation()...)
+				} else {
+					// overwrite in place and append
+					r.AddAttributes(mutation()...)
+				}
 				r.SetBody(log.StringValue("MUTATED"))
 			}
 		}
 		flush, shutdown = bp.ForceFlush, bp.Shutdown
 	}
+	_ = neighbour
 
 	emits := make([]emitRec, total)
 	var cmu sync.Mutex
@@ -390,7 +521,9 @@ func runOnce(c Case) ([]vk.Violation, map[string]bool) {
 				vk.Perturb(op.P)
 				switch op.K {
 				case "emit":
-					doEmit(ids[slot{pi, g, i}], pi*100+g, pi, op.M, op.C)
+					for k, first := 0, ids[slot{pi, g, i}]; k < op.count(); k++ {
+						doEmit(first+k, pi*100+g, pi, op.M, op.C)
+					}
 				case "flush":
 					doCall("flush", op.T, pi)
 				case "shutdown":
@@ -445,8 +578,8 @@ func runOnce(c Case) ([]vk.Violation, map[string]bool) {
 		if call.exit == 0 {
 			call.exit = never
 		}
-		if len(call.items) > c.Batch {
-			bad("batch_too_large", "Export call %d received %d records, the maximum batch size is %d", ci, len(call.items), c.Batch)
+		if int64(len(call.items)) > eff.batchMax {
+			bad("batch_too_large", "Export call %d received %d records, the configured maximum batch size is %d (%s)", ci, len(call.items), eff.batchMax, describe(cfg.Batch))
 		}
 		if len(call.items) == 0 {
 			bad("empty_export", "Export call %d received no records", ci)
@@ -463,7 +596,7 @@ func runOnce(c Case) ([]vk.Violation, map[string]bool) {
 				bad("exported_twice", "record %d passed to the exporter twice (calls entered at t=%d and t=%d)", it.id, prev.enter, call.enter)
 			}
 			where[it.id] = call
-			if want := expectedContent(it.id); it.content != want {
+			if want := expectedContent(it.id, na); it.content != want {
 				bad("content_changed", "record %d exported as %q, emitted as %q", it.id, it.content, want)
 			}
 			if call.enter < emits[it.id].start {
@@ -572,8 +705,8 @@ func runOnce(c Case) ([]vk.Violation, map[string]bool) {
 				after++
 			}
 		}
-		if after < c.Queue {
-			bad("lost_without_overflow", "record %d (Emit t=%d..%d) was never passed to the exporter although %s (t=%d..%d) returned nil and only %d other records could have been queued after it (queue size %d)", id, e.start, e.end, f.kind, f.start, f.end, after, c.Queue)
+		if int64(after) < eff.queueMin {
+			bad("lost_without_overflow", "record %d (Emit t=%d..%d) was never passed to the exporter although %s (t=%d..%d) returned nil and only %d other records could have been queued after it (configured queue size %d (%s))", id, e.start, e.end, f.kind, f.start, f.end, after, eff.queueMin, describe(cfg.Queue))
 		}
 	}
 	if missing > 0 {
@@ -594,7 +727,8 @@ func runOnce(c Case) ([]vk.Violation, map[string]bool) {
 			neverExported++
 		}
 	}
-	if int(logged) > neverExported {
+	// (the neighbour batch processor logs its own drops through the same logger)
+	if int(logged) > neverExported && c.Neighbour != 4 {
 		bad("drop_report_exceeds_missing", "the processor logged %d dropped records but only %d emitted records were never exported", logged, neverExported)
 	}
 
@@ -645,7 +779,23 @@ func runOnce(c Case) ([]vk.Violation, map[string]bool) {
 		}
 	}
 	for _, call := range ecalls {
-		classes[fmt.Sprintf("batch_full=%v", len(call.items) == c.Batch)] = true
+		classes[fmt.Sprintf("batch_full=%v", int64(len(call.items)) == eff.batchMax)] = true
+		if n := len(call.items); n > 32 {
+			classes["export_of_more_than_32_records"] = true
+		}
+	}
+	if eff.ambiguous {
+		classes["queue_or_batch_has_two_readings"] = true
+	}
+	if d := exp.maxRemaining.Load(); d/1000 > eff.timeoutMaxUs {
+		// label only: the statement has no clause on the export deadline
+		classes["export_deadline_later_than_configured_timeout"] = true
+	}
+	if nrec > 64 {
+		classes["more_than_64_records"] = true
+	}
+	if nrec > 1024 {
+		classes["more_than_1024_records"] = true
 	}
 	return vs, classes
 }
@@ -665,7 +815,8 @@ func run(c Case) ([]vk.Violation, vk.Info) {
 			all[k] = true
 		}
 	}
-	multi, flushes, overflowPhase, doneCtxEmit := false, 0, false, false
+	multi, flushes, overflowPhase, doneCtxEmit, burst := false, 0, false, false, false
+	eff := c.config().effective()
 	for _, ph := range c.Phases {
 		producers, n := 0, 0
 		for _, ops := range ph {
@@ -673,9 +824,12 @@ func run(c Case) ([]vk.Violation, vk.Info) {
 			for _, op := range ops {
 				if op.K == "emit" {
 					has = true
-					n++
+					n += op.count()
 					if op.C != 0 {
 						doneCtxEmit = true
+					}
+					if op.N > 1 {
+						burst = true
 					}
 				}
 				if op.K == "flush" {
@@ -689,7 +843,7 @@ func run(c Case) ([]vk.Violation, vk.Info) {
 		if producers >= 2 {
 			multi = true
 		}
-		if n > c.Queue {
+		if int64(n) > eff.queueMin {
 			overflowPhase = true
 		}
 	}
@@ -699,21 +853,54 @@ func run(c Case) ([]vk.Violation, vk.Info) {
 	}
 	info.ClassIf(doneCtxEmit, "emit_with_cancelled_or_expired_context")
 	info.ClassIf(c.ViaProvider, "via_logger_provider")
+	info.ClassIf(c.Neighbour != 0, fmt.Sprintf("neighbour_processor=%d", c.Neighbour))
+	info.ClassIf(true, fmt.Sprintf("attributes_per_record=%s", map[bool]string{true: "0-5_inline_only", false: "6+_overflow_slice"}[c.nattrs() <= 5]))
 	info.ClassIf(multi, "two_or_more_producers")
 	info.ClassIf(overflowPhase, "phase_emits_more_than_queue")
 	info.ClassIf(c.IntervalUs < 1e6, "interval_polling_active")
+	info.ClassIf(burst, "emit_burst")
+	info.ClassIf(c.Cfg != nil, "config_through_generated_channels")
 	return vs, info
 }
 
 func TestLogBatchProcessor(t *testing.T) {
 	vk.Run(t, vk.Spec[Case]{
 		Property: "C06", Check: "blp_history",
-		Rule: "generated concurrent programs (1-5 barrier-separated phases of 1-6 goroutines issuing Emit (optionally mutating the caller's record afterwards) / ForceFlush / Shutdown / pauses with generated contexts and schedule perturbations) x BatchProcessor configurations (queue 1-32, batch 1-queue, interval 1ms/1h, export timeout 2ms/1s, export buffer 1-3, bare processor or through a LoggerProvider) x exporter fault plans (ok/error/slow/blocks until its context expires); each program is executed twice; " +
+		Rule: "generated concurrent programs (1-5 barrier-separated phases of 1-6 goroutines issuing Emit (single records or bursts of up to 2*queue+2, 0-12 attributes per record, optionally changing the caller's record and the attribute slice it was built from afterwards) / ForceFlush / Shutdown / pauses with generated contexts and schedule perturbations) x BatchProcessor configurations (queue 1-160, batch 1-queue or up to 8 above it, interval 200us/1ms/5ms/1h, export timeout 2ms/1s, export buffer 1-3; in half of the cases every setting goes through a generated channel: option, OTEL_BLRP_* environment variable in a generated legal spelling, both, option given twice) x bare processor or through a LoggerProvider, there optionally next to a neighbour processor (OnEmit fails, before or after; rewrites the record, after; a second batch processor with a failing exporter) x exporter fault plans (ok/error/slow/blocks until its context expires); each program is executed twice; " +
 			"non-trivial = (>= 2 producer goroutines in a phase, or a phase emitting more than the queue holds, or a ForceFlush) and >= 2 Export calls observed; distinct = distinct case encodings",
 		Quick: 300, Thorough: 3000,
 		Gen: gen, Run: run, Repeat: 100,
 		ShrinkTime: 30 * time.Second,
 	})
+}
+
+// TestLogBatchProcessorConfig: the same oracle over mostly sequential programs
+// whose configuration reaches the processor through every channel (option,
+// environment, both, neither, an option given twice, an option value < 1) and
+// every spelling, and whose record counts straddle the configured sizes.
+func TestLogBatchProcessorConfig(t *testing.T) {
+	vk.Run(t, vk.Spec[Case]{
+		Property: "C06", Check: "blp_config",
+		Rule: "each of queue size, max batch size, interval, export timeout and export buffer is configured through a generated channel (With… option, OTEL_BLRP_* environment variable, both, neither = documented default, option given twice, option value < 1) with generated values (< 1, 1-12, 1-130, 100-2600, very large batch sizes) and, for the environment, generated spellings (plain / plus sign / zero padded decimal integers, blank, blank padded, 0x 0o 0b prefixed, underscores, fractions, exponents, unit suffixes, garbage, out of range); 1-3 segments of one or two goroutines emitting a burst whose size is placed around the sizes the configuration can be read as (size-2..size+3, 1..2*size), each followed by ForceFlush, nothing or a final Shutdown; the oracle of blp_history with the largest batch size and the smallest queue size any documented reading of the configuration allows; " +
+			"non-trivial = queue or batch size configured otherwise than by one valid option, and >= 2 Export calls observed; distinct = distinct case encodings",
+		Quick: 1000, Thorough: 15000,
+		Gen: genConfigCase, Run: runConfig, Repeat: 3,
+		ShrinkTime: 30 * time.Second,
+	})
+}
+
+func runConfig(c Case) ([]vk.Violation, vk.Info) {
+	vs, info := run(c)
+	cfg := c.config()
+	plain := func(s Setting) bool { return len(s.Opts) == 1 && s.Opts[0] >= 1 }
+	two := false
+	for _, k := range info.Classes {
+		if k == "two_or_more_exports" {
+			two = true
+		}
+	}
+	info.NonTrivial = two && !(plain(cfg.Queue) && plain(cfg.Batch))
+	return vs, info
 }
 
 // genEmitCtx draws the context an emit op hands to Emit: mostly live, sometimes
@@ -746,3 +933,48 @@ func emitCtx(kind int) context.Context {
 	}
 	return context.Background()
 }
+
+// describe renders how a setting was configured, for violation messages.
+func describe(s Setting) string {
+	var parts []string
+	for _, o := range s.Opts {
+		parts = append(parts, fmt.Sprintf("option %d", o))
+	}
+	if s.EnvSet {
+		parts = append(parts, fmt.Sprintf("environment %q", string(s.Env)))
+	}
+	if len(parts) == 0 {
+		return "neither option nor environment: default"
+	}
+	return strings.Join(parts, ", ")
+}
+
+// failingProcessor is a neighbour whose OnEmit always fails.
+type failingProcessor struct{}
+
+func (failingProcessor) OnEmit(context.Context, *sdklog.Record) error {
+	return errors.New("scripted neighbour processor failure")
+}
+func (failingProcessor) Shutdown(context.Context) error   { return nil }
+func (failingProcessor) ForceFlush(context.Context) error { return nil }
+
+// rewritingProcessor is a neighbour that changes the record it is handed (the
+// record the processors registered before it were handed, too).
+type rewritingProcessor struct{ mutation func() []log.KeyValue }
+
+func (p rewritingProcessor) OnEmit(_ context.Context, r *sdklog.Record) error {
+	r.AddAttributes(p.mutation()...)
+	r.SetBody(log.StringValue("REWRITTEN"))
+	return nil
+}
+func (rewritingProcessor) Shutdown(context.Context) error   { return nil }
+func (rewritingProcessor) ForceFlush(context.Context) error { return nil }
+
+// failingExporter is the exporter of the neighbour batch processor.
+type failingExporter struct{}
+
+func (failingExporter) Export(context.Context, []sdklog.Record) error {
+	return errors.New("scripted neighbour exporter failure")
+}
+func (failingExporter) Shutdown(context.Context) error   { return nil }
+func (failingExporter) ForceFlush(context.Context) error { return nil }
